@@ -20,6 +20,17 @@ pub fn c08(ctx: &Ctx, subj: &dyn DynSubject, ty: &Ty, rep: &mut Report) {
         let (bytes, _) = ser_bytes(subj, v)?;
         let enc = model_enc_fit(ctx, subj, ty, v, bytes.len(), log)?;
         let path = ctx.tmp.join(format!("c08-{}-{:?}.bin", subj.index(), std::thread::current().id()).replace(['(', ')'], ""));
+        // history: a store that fails after its file was opened (the device is full) must not influence the next one
+        let failed_first = ent.pick(3) == 0 && std::path::Path::new("/dev/full").exists() && !bytes.is_empty();
+        if failed_first {
+            log.classes.push("store-after-failed-store".into());
+            log.extra_evals += 1;
+            match guard(|| subj.store(v, std::path::Path::new("/dev/full"))) {
+                Ok(Ok(())) => return Err(Fail::new("store-to-full-device-succeeded", "store to /dev/full returned Ok although no byte can be written there".to_string())),
+                Ok(Err(_)) => {}
+                Err(p) => return Err(Fail::new(&format!("store-panic:{}", panic_class(&p)), format!("store to /dev/full panicked: {}", p))),
+            }
+        }
         // store writes exactly the serialized bytes
         match guard(|| subj.store(v, &path)) {
             Ok(Ok(())) => {}
@@ -27,8 +38,17 @@ pub fn c08(ctx: &Ctx, subj: &dyn DynSubject, ty: &Ty, rep: &mut Report) {
         }
         let file = std::fs::read(&path).map_err(|e| Fail::new("harness:tmpfile", format!("cannot read back temp file: {}", e)))?;
         if file.len() != bytes.len() || !same_masked(&enc, &file, &bytes) {
-            return Err(Fail::new("store-bytes", format!("store wrote {} bytes, serialize produces {} (or contents differ)", file.len(), bytes.len())));
+            return Err(Fail::new("store-bytes", format!("store wrote {} bytes, serialize produces {} (or contents differ){}", file.len(), bytes.len(), if failed_first { "; a store to a full device had failed just before on this thread" } else { "" })));
         }
+        // the loaders are given either the path of the file or a symbolic link to it
+        let link = path.with_extension("lnk");
+        let _ = std::fs::remove_file(&link);
+        let via_link = ent.pick(2) == 0 && std::os::unix::fs::symlink(&path, &link).is_ok();
+        if via_link {
+            log.classes.push("loaded-through-symlink".into());
+        }
+        let stored_path = path.clone();
+        let path = if via_link { link.clone() } else { path };
         log.classes.push(format!("len-mod64-{}", file.len() % 64));
         // reference: ε-copy of the file bytes
         let pl = Placed::new(&file, 4096, 0);
@@ -58,7 +78,7 @@ pub fn c08(ctx: &Ctx, subj: &dyn DynSubject, ty: &Ty, rep: &mut Report) {
             if nonempty_borrow {
                 log.extra_nontrivial.push(hash_sub(subj.name(), v, "c08", loader as u64 * 64 + flags as u64 * 8 + script as u64, 0));
             }
-            let what = format!("{:?} flags={:03b} script={:?}", loader, flags, script);
+            let what = format!("{:?} flags={:03b} script={:?}{}", loader, flags, script, if via_link { " (path is a symbolic link to the file)" } else { "" });
             let env = json!({"loader": format!("{:?}", loader), "flags": flags, "script": format!("{:?}", script)});
             let out = match guard(|| subj.load(loader, &path, flags, script)) {
                 Err(p) => return Err(Fail::new(&format!("load-panic:{}", panic_class(&p)), format!("{}: panicked: {}", what, p)).env(env)),
@@ -124,7 +144,8 @@ pub fn c08(ctx: &Ctx, subj: &dyn DynSubject, ty: &Ty, rep: &mut Report) {
                 }
             }
         }
-        std::fs::remove_file(&path).ok();
+        std::fs::remove_file(&link).ok();
+        std::fs::remove_file(&stored_path).ok();
         Ok(())
     });
 }
